@@ -26,7 +26,7 @@ RULE = (
     "snapshot-restored twin; distinct_nontrivial = distinct (machine, engine, state, history event) cases"
 )
 BOUNDS = {
-    "quick": "TREE(N<=5) trees with a history node under a non-root parent x {no default, default=last sibling} x {sync, async}",
+    "quick": "TREE(N<=5) trees with a history node under a non-root parent x {no default, default=last sibling (plain key; for trees with a history owner outside the initial configuration also leading-dot and #absolute spellings)} x {sync, async}",
     "thorough": "TREE(N<=6) trees with a history node under a non-root parent x {no default, default=last sibling} x {sync, async}; "
                 "plus structured skeletons C(X(H,s1,s2),A) with X in {C,P}, H in {Hs,Hd}, s1,s2 from a subtree menu (quick: reduced menu) and C(P(owner,sibling),A) with the history owner a region next to a deeper region",
 }
@@ -46,8 +46,14 @@ def units(tier: str) -> List[Any]:
         if any(x.is_history and x.parent.parent is not None for x in nodes):
             out.append((t, False))
             out.append((t, True))
+            if any(x.is_history and x.parent not in F.default_entry(nodes[0]) for x in nodes):
+                # (the default only matters while the owner was never exited: owners outside the initial configuration)
+                # the default target respelled: leading-dot relative (looked up from the history node) and absolute
+                out.append((t, "dot"))
+                out.append((t, "abs"))
     for t in F.hist_skeletons(tier):
         out.append((t, False))
+        out.append((t, "dot"))
     return out
 
 
@@ -60,7 +66,7 @@ def build_cfg(tree, with_default: bool):
             if n.is_history:
                 sibs = [c for c in n.parent.children if not c.is_history]
                 defaults[n.id] = sibs[-1].id
-                F.cfg_node(cfg, n)["target"] = sibs[-1].key
+                F.cfg_node(cfg, n)["target"] = {"dot": "." + sibs[-1].key, "abs": "#" + sibs[-1].id}.get(with_default, sibs[-1].key)
     return cfg, nodes, events, defaults
 
 
@@ -90,7 +96,7 @@ def run_unit(unit):
     tree, with_default = unit
     cfg, nodes, events, defaults = build_cfg(tree, with_default)
     byid = {n.id: n for n in nodes}
-    label = F.tree_str(tree) + ("+defaults" if with_default else "")
+    label = F.tree_str(tree) + ("" if not with_default else "+defaults" if with_default is True else f"+defaults[{with_default}-spelling]")
     res = dict(states=0, transitions=0, executions=0, distinct=[], violations=[], samples=[], caps=[])
     hist_parents = sorted({n.parent.id for n in nodes if n.is_history})
     judged = 0
